@@ -595,3 +595,8 @@ def shrink(c):
         if o[0] == 5:
             for k in range(len(o[1][1])):
                 yield emit(ops[:i] + [[5, [o[1][0], o[1][1][:k] + o[1][1][k + 1:]]]] + ops[i + 1:])
+
+
+# coverage round (notes/coverage.md): cases and support theorems for exported identifiers outside the property text
+from gen import covlib
+covlib.install(globals())
